@@ -273,12 +273,43 @@ def run_case(jc, rec):
     return result
 
 
+def adversarial_cases():
+    """Hand-built linked groups for each label pool in which DIFFERENT sets of datasets share aligned indices: the
+    bookkeeping of 'which datasets are stacked at this index' is keyed by dataset labels in the library."""
+    out = []
+    for pool, names in S.LABEL_POOLS.items():
+        if len(names) < 4:
+            continue
+        for perm in ((0, 1, 2, 3), (2, 3, 0, 1), (3, 0, 1, 2)):
+            nm = [names[i] for i in perm]
+            # indices 1,2 held by {nm0, nm1}; 3,4 by {nm2, nm3}; 5 by {nm0, nm3}; 6 by all four
+            axes = [[1.0, 2.0, 5.0, 6.0], [1.0, 2.0, 6.0], [3.0, 4.0, 6.0], [3.0, 4.0, 5.0, 6.0]]
+            ds, id0 = [], 0
+            for k, (n, g) in enumerate(zip(nm, axes)):
+                t = [0.0, 0.25, 0.5, 1.0, 1.5, 2.5, 4.0, 6.0, 8.0][: 7 + (k % 3)]
+                ds.append({"label": n, "group": "g1", "t": t, "g": g, "layout": ["mg", "gm", "mg_f", "gm_f"][k], "megacomplex": ["m1"], "dseed": 100 + k,
+                           "id0": id0, "weight": "dataset" if k == 1 else None, "scale": "scale.1" if k == 2 else None, "mc_scale": None})
+                id0 += len(t) * len(g)
+            out.append(S.jsonable_case({
+                "datasets": ds, "megacomplexes": {"m1": {"labels": ["a", "b"], "rates": ["k.1", "k.2"], "disp": None}}, "global_megacomplexes": {},
+                "groups": {"g1": {"link_clp": True, "residual_function": "variable_projection"}},
+                "parameters": {"k.1": {"value": 1.3}, "k.2": {"value": 0.2}, "scale.1": {"value": 1.7, "vary": False}},
+                "link_tolerance": 0.0, "link_method": "nearest", "constraints": [], "relations": [], "penalties": [], "weights": [],
+                "features": {"link_clp": True, "label_pool": pool, "adversarial": True, "n_datasets": 4, "axes": "mixed-membership"}}))
+    return out
+
+
 def run_shard(spec, rec):
     attach(rec)
     rng = rng_for(spec)
     S.model_class()
+    if spec["shard"] == 0:
+        for jc in adversarial_cases():
+            result = run_case(jc, rec)
+            rec.count("adversarial_membership_cases")
+            rec.case(("adversarial", jc["features"]["label_pool"], tuple(d["label"] for d in jc["datasets"])), result is not None, features=[f"pool={jc['features']['label_pool']}", "adversarial"])
     for i in range(spec["n"]):
-        pool = POOLS[int(rng.integers(len(POOLS)))]
+        pool = POOLS[i % len(POOLS)] if i % 2 else POOLS[int(rng.integers(len(POOLS)))]
         case = c02.fix_groups(S.gen_case(rng, label_pool=pool, layouts=("mg", "gm", "mg_f", "gm_f")))
         jc = S.jsonable_case(case)
         result = run_case(jc, rec)
